@@ -17,11 +17,14 @@ from mc.refmodels import basis_model as BM
 LEVEL = "model_checking"
 TOL = 1e-9
 DIM = 3
+NT = 3            # time points of time-dependent objects (dme, esup, sup5, relt5)
 
 
 class Injected(Exception):
     pass
 
+
+SUP_T = ("esup", "sup5", "relt5")      # kinds with data[t,i,j,k,l]
 
 XDATA = {
     "A": numpy.array([[0.0, 1.0, 0.0], [1.0, 1.0, 0.5], [0.0, 0.5, 3.0]]),
@@ -63,6 +66,11 @@ def _vals(kind, which):
         rng = numpy.arange(81, dtype=float).reshape(3, 3, 3, 3)
         a = numpy.cos(rng * (0.37 + 0.2 * which)) + 1j * numpy.sin(rng * 0.11)
         return {"_data": a}
+    if kind in SUP_T:
+        # every time slice is a different generic (non-symmetric, complex) rank-4 array
+        rng = numpy.arange(NT * 81, dtype=float).reshape(NT, 3, 3, 3, 3)
+        a = numpy.cos(rng * (0.37 + 0.2 * which)) + 1j * numpy.sin(rng * 0.11)
+        return {"_data": a}
     if kind == "dme":
         r = _vals("rho", which)["_data"]
         return {"_data": numpy.stack([r, r * 0.5 + 0.1 * numpy.eye(3), r.conj()], axis=0)}
@@ -70,7 +78,12 @@ def _vals(kind, which):
 
 
 PARTKIND = {"op": "op", "rho": "op", "ham": "op", "dmom": "dmom", "sup": "sup",
-            "lindten": "sup", "lindop": "ops3", "dme": "dme", "ctx": "op"}
+            "lindten": "sup", "lindop": "ops3", "dme": "dme", "ctx": "op",
+            "esup": "sup_t", "sup5": "sup_t", "relt5": "sup_t",
+            # objects produced from an esup: apply at one time / at several times, at(time)
+            "esup-applied": "op", "esup-applied-evol": "dme", "esup-slice": "sup"}
+# which deterministic array set a kind is (over)written with
+VALKIND = {"esup-applied": "op", "esup-applied-evol": "dme", "esup-slice": "sup"}
 
 
 class World:
@@ -87,6 +100,7 @@ class World:
         self.nexc = 0
         self.ncreated = 0
         self.napply = 0
+        self.nat = 0
         self.viol = []
         for n in cfg["ctx"]:
             o = SelfAdjointOperator(data=XDATA[n].copy())
@@ -111,8 +125,15 @@ class World:
         return S
 
     def _register(self, label, kind, obj, H):
-        self.objs[label] = {"kind": kind, "obj": obj, "H": H, "prot": None, "frozen": None}
+        self.objs[label] = {"kind": kind, "obj": obj, "H": H, "prot": None, "frozen": None,
+                            "alias": False}
         self.order.append(label)
+
+    def okey(self, rec, base):
+        """Violation key of an object-related check.  Objects whose storage is shared with a
+        slice object handed out by EvolutionSuperOperator.at() get a suffix of their own: what
+        goes wrong with them is a different failure (one array transformed by two owners)."""
+        return base + ("/storage-shared-with-at-slice" if rec["alias"] else "")
 
     def to_root(self, kind, arr):
         S = self.S_tot()
@@ -162,9 +183,24 @@ class World:
                         for a in ("_Km", "_Lm", "_Ld")}
             else:
                 vals = {"_data": numpy.array(o._data, dtype=complex, copy=True)}
+        elif kind == "esup":
+            from quantarhei.qm import EvolutionSuperOperator
+            ta = qr.TimeAxis(0.0, NT, 1.0)
+            hh = qr.Hamiltonian(data=_vals("ham", 0)["_data"].copy())
+            o = EvolutionSuperOperator(time=ta, ham=hh, mode="all")
+            o.data = vals["_data"].copy()
+        elif kind == "sup5":
+            from quantarhei.qm import SuperOperator
+            o = SuperOperator(dim=DIM)
+            o.data = vals["_data"].copy()
+        elif kind == "relt5":
+            from quantarhei.qm import RelaxationTensor
+            o = RelaxationTensor()
+            o.dim = DIM                   # set by every constructor of a concrete tensor class
+            o.data = vals["_data"].copy()
         elif kind == "dme":
             from quantarhei.qm import DensityMatrixEvolution
-            ta = qr.TimeAxis(0.0, 3, 1.0)
+            ta = qr.TimeAxis(0.0, NT, 1.0)
             r0 = qr.ReducedDensityMatrix(data=_vals("rho", 0)["_data"].copy())
             o = DensityMatrixEvolution(ta, r0)
             full = _vals("dme", 0)["_data"]
@@ -188,16 +224,24 @@ class World:
             if rec["prot"] is not None:
                 ok = numpy.array_equal(numpy.asarray(got), rec["frozen"][a])
                 if not ok:
-                    self.v("protected-object-changed/%s" % rec["kind"],
+                    self.v(self.okey(rec, "protected-object-changed/%s" % rec["kind"]),
                            "%s.%s changed while basis-protected" % (label, a[1:]))
                 continue
             exp = self.expected(label, a)
             ok, err = self._cmp(got, exp)
             if not ok:
-                self.v("presented-basis/%s/depth%d" % (rec["kind"], self.depth()),
-                       "%s.%s read at depth %d (contexts %s) differs from S^-1 H S by %g"
-                       % (label, a[1:], self.depth(), [l["name"] for l in self.levels], err),
-                       {"err": err})
+                det = {"err": err}
+                if rec["kind"] in SUP_T and numpy.shape(got) == exp.shape:
+                    # which time slices are not in the basis of the context
+                    det["wrong_time_slices"] = [t for t in range(exp.shape[0])
+                                                if not self._cmp(numpy.asarray(got)[t],
+                                                                 exp[t])[0]]
+                self.v(self.okey(rec, "presented-basis/%s/depth%d" % (rec["kind"],
+                                                                      self.depth())),
+                       "%s.%s read at depth %d (contexts %s) differs from S^-1 H S by %g%s"
+                       % (label, a[1:], self.depth(), [l["name"] for l in self.levels], err,
+                          " (time slices %s)" % det["wrong_time_slices"]
+                          if "wrong_time_slices" in det else ""), det)
         # clause (i): the innermost context operator is diagonal with ascending eigenvalues
         if rec["kind"] == "ctx" and self.levels and rec["prot"] is None \
                 and self.levels[-1]["name"] == label[1:]:
@@ -215,7 +259,7 @@ class World:
 
     def write(self, label):
         rec = self.objs[label]
-        vals = _vals(rec["kind"], 1)
+        vals = _vals(VALKIND.get(rec["kind"], rec["kind"]), 1)
         for a, x in vals.items():
             setattr(rec["obj"], a[1:], x.copy())
             rec["H"][a] = self.to_root(rec["kind"], x)
@@ -242,17 +286,34 @@ class World:
         rec = self.objs[label]
         for a in self.attrs(label):
             if not numpy.array_equal(numpy.asarray(getattr(rec["obj"], a)), rec["frozen"][a]):
-                self.v("protected-object-changed/%s" % rec["kind"],
+                self.v(self.okey(rec, "protected-object-changed/%s" % rec["kind"]),
                        "%s.%s changed while basis-protected" % (label, a[1:]))
         rec["obj"].unprotect_basis()
         rec["prot"] = None
         rec["frozen"] = None
 
-    def apply(self, sl, rl):
+    def apply(self, sl, rl, tv=None):
+        """tensor.apply(operator); for an evolution superoperator (kind esup) `tv` selects the
+        time argument: a time index (apply at that one time), "all" (the whole time axis) or
+        "list" (a list of all time points, which goes through EvolutionSuperOperator.at)."""
         srec, rrec = self.objs[sl], self.objs[rl]
-        res = srec["obj"].apply(rrec["obj"])
         rho_root = rrec["H"]["_data"]
-        if srec["kind"] == "lindop":
+        reskind = "op"
+        if srec["kind"] == "esup":
+            times = [float(t) for t in range(NT)]
+            if tv in ("all", "list"):
+                res = srec["obj"].apply("all" if tv == "all" else times, rrec["obj"])
+                out = numpy.stack([numpy.tensordot(srec["H"]["_data"][t], rho_root)
+                                   for t in range(NT)], axis=0)
+                reskind = "esup-applied-evol"
+                if tv == "list":
+                    srec["alias"] = True        # at() hands out views of the storage
+            else:
+                res = srec["obj"].apply(times[tv], rrec["obj"])
+                out = numpy.tensordot(srec["H"]["_data"][tv], rho_root)
+                reskind = "esup-applied"
+        elif srec["kind"] == "lindop":
+            res = srec["obj"].apply(rrec["obj"])
             Km, Lm, Ld = srec["H"]["_Km"], srec["H"]["_Lm"], srec["H"]["_Ld"]
             # root basis is orthonormal and transformations are real orthogonal: K^+ = K^T
             out = numpy.zeros((DIM, DIM), dtype=complex)
@@ -261,21 +322,46 @@ class World:
                 out += (Km[m] @ rho_root @ Ld[m] + Lm[m] @ rho_root @ Kd
                         - Kd @ Lm[m] @ rho_root - rho_root @ Ld[m] @ Km[m])
         else:
+            res = srec["obj"].apply(rrec["obj"])
             out = numpy.tensordot(srec["H"]["_data"], rho_root)
         self.napply += 1
         label = "res%d" % self.napply
-        self._register(label, "op", res, {"_data": out})
+        self._register(label, reskind, res, {"_data": out})
         S = self.S_tot()
-        exp = BM.transform("op", out, S, numpy.linalg.inv(S))
+        exp = BM.transform(PARTKIND[reskind], out, S, numpy.linalg.inv(S))
         ok, err = self._cmp(res.data, exp)
         if not ok:
-            self.v("apply-not-basis-independent/%s/depth%d" % (srec["kind"], self.depth()),
-                   "%s.apply(%s) at depth %d differs from the root-basis action by %g"
-                   % (sl, rl, self.depth(), err), {"err": err})
-        # tr(A rho) is basis independent
-        tr = numpy.trace(numpy.asarray(res.data))
-        if abs(tr - numpy.trace(out)) > TOL * max(1.0, abs(numpy.trace(out))):
-            self.v("trace-not-basis-independent", "trace of applied result changed")
+            self.v(self.okey(srec, "apply-not-basis-independent/%s/depth%d"
+                             % (srec["kind"], self.depth())),
+                   "%s.apply(%s%s) at depth %d differs from the root-basis action by %g"
+                   % (sl, "" if tv is None else "time=%s, " % tv, rl, self.depth(), err),
+                   {"err": err})
+        # tr(A rho) is basis independent (at every time)
+        tr = numpy.trace(numpy.asarray(res.data), axis1=-2, axis2=-1)
+        tro = numpy.trace(out, axis1=-2, axis2=-1)
+        if numpy.shape(tr) != numpy.shape(tro) or \
+                numpy.max(numpy.abs(tr - tro)) > TOL * max(1.0, numpy.max(numpy.abs(tro))):
+            self.v(self.okey(srec, "trace-not-basis-independent"),
+                   "trace of applied result changed")
+
+    def at(self, sl, ti):
+        """EvolutionSuperOperator.at(time): a SuperOperator made of one time slice, created in
+        the basis that is current."""
+        srec = self.objs[sl]
+        res = srec["obj"].at(float(ti))
+        self.nat += 1
+        label = "slice%d" % self.nat
+        self._register(label, "esup-slice", res,
+                       {"_data": numpy.array(srec["H"]["_data"][ti], copy=True)})
+        srec["alias"] = True
+        self.objs[label]["alias"] = True
+        S = self.S_tot()
+        exp = BM.transform("sup", self.objs[label]["H"]["_data"], S, numpy.linalg.inv(S))
+        ok, err = self._cmp(res.data, exp)
+        if not ok:
+            self.v("at-not-in-current-basis/esup/depth%d" % self.depth(),
+                   "%s.at(%d) at depth %d differs from the slice of S^-1 H S by %g"
+                   % (sl, ti, self.depth(), err), {"err": err})
 
     def _snap(self):
         m = self.mgr
@@ -303,11 +389,19 @@ class World:
 
     def _exit_one(self, exc):
         lv = self.levels.pop()
-        if exc is None:
-            lv["cm"].__exit__(None, None, None)
+        try:
+            if exc is None:
+                lv["cm"].__exit__(None, None, None)
+                swallowed = False
+            else:
+                swallowed = bool(lv["cm"].__exit__(type(exc), exc, exc.__traceback__))
+        except isolation.HarnessError:
+            raise
+        except Exception as e:                      # leaving a context must never fail
             swallowed = False
-        else:
-            swallowed = bool(lv["cm"].__exit__(type(exc), exc, exc.__traceback__))
+            self.v("context-exit-raises/%s" % type(e).__name__,
+                   "leaving context %s raised %s: %s" % (lv["name"], type(e).__name__,
+                                                         str(e)[:120]))
         now = self._snap()
         snap = lv["snap"]
         for k in ("stack", "ntrans", "regkeys", "flag"):
@@ -366,7 +460,7 @@ class World:
             rec = self.objs[lab]
             o = rec["obj"]
             if o.get_current_basis() != 0:
-                self.v("restoration/object-basis-tag/%s" % rec["kind"],
+                self.v(self.okey(rec, "restoration/object-basis-tag/%s" % rec["kind"]),
                        "%s is tagged with basis %r after all contexts were left"
                        % (lab, o.get_current_basis()))
                 continue
@@ -374,13 +468,13 @@ class World:
                 got = getattr(o, a)
                 ok, err = self._cmp(got, rec["H"][a])
                 if not ok:
-                    self.v("restoration/object-data/%s" % rec["kind"],
+                    self.v(self.okey(rec, "restoration/object-data/%s" % rec["kind"]),
                            "%s.%s differs from its original representation by %g after all "
                            "contexts were left" % (lab, a[1:], err), {"err": err})
                 pub = getattr(o, a[1:])
                 ok, err = self._cmp(pub, rec["H"][a])
                 if not ok:
-                    self.v("restoration/object-public-read/%s" % rec["kind"],
+                    self.v(self.okey(rec, "restoration/object-public-read/%s" % rec["kind"]),
                            "%s.%s read outside differs by %g" % (lab, a[1:], err))
 
     # -- enumeration support -------------------------------------------------
@@ -416,21 +510,33 @@ class World:
             if rec["kind"] != "ctx" and rec["prot"] is None:
                 if rec["kind"] not in ("lindop", "lindten"):
                     ops.append(["write", lab])
-                if self.nexc < cfg["nexc"] and rec["kind"] in ("op", "ham", "sup"):
+                if self.nexc < cfg["nexc"] and rec["kind"] in ("op", "ham", "sup") + SUP_T:
                     ops.append(["write_bad", lab])
             if cfg.get("protect", True):
                 if rec["prot"] is None and rec["obj"].get_current_basis() == self.mgr.get_current_basis():
                     ops.append(["protect", lab])
                 if rec["prot"] is not None and rec["prot"] == d:
                     ops.append(["unprotect", lab])
-        if self.napply < 1:
-            sups = [l for l in self.order if self.objs[l]["kind"] in ("sup", "lindop", "lindten")
+        if self.napply < cfg.get("napply", 1):
+            sups = [l for l in self.order
+                    if self.objs[l]["kind"] in ("sup", "lindop", "lindten", "esup")
                     and self.objs[l]["prot"] is None]
             rhos = [l for l in self.order if self.objs[l]["kind"] in ("rho", "op")
                     and self.objs[l]["prot"] is None and not l.startswith("res")]
             for s in sups[:1]:
                 for r in rhos[:1]:
-                    ops.append(["apply", s, r])
+                    if self.objs[s]["kind"] == "esup":
+                        # the complete set of time arguments: every time point, the whole
+                        # axis, a list of times
+                        for tv in list(range(NT)) + ["all", "list"]:
+                            ops.append(["apply", s, r, tv])
+                    else:
+                        ops.append(["apply", s, r])
+        if self.nat < cfg.get("nat", 0):
+            for lab in self.order:
+                if self.objs[lab]["kind"] == "esup" and self.objs[lab]["prot"] is None:
+                    for ti in range(NT):
+                        ops.append(["at", lab, ti])
         return ops
 
     def key(self):
@@ -452,7 +558,7 @@ class World:
                          [numpy.round(rec["H"][a], 6).tobytes().hex()[:40] + str(hash(
                              numpy.round(rec["H"][a], 6).tobytes())) for a in self.attrs(lab)]])
         return [[l["name"] for l in self.levels], list(m.basis_stack), objs,
-                self.nexc, self.ncreated, self.napply]
+                self.nexc, self.ncreated, self.napply, self.nat]
 
 
 CFG = {}
@@ -469,7 +575,7 @@ def execute(hist):
     nobj = len(w.order)
     w.close_and_check()
     nontrivial = any(o[0] == "enter" for o in hist) and any(
-        o[0] in ("create", "read", "write", "apply") for o in hist)
+        o[0] in ("create", "read", "write", "apply", "at") for o in hist)
     return {"key": key, "enabled": enabled, "violations": w.viol, "nontrivial": nontrivial,
             "outcome": [depth, nobj, [o[0] for o in hist][-1:] if hist else [],
                         len(w.viol)]}
@@ -477,7 +583,7 @@ def execute(hist):
 
 execute.cfg = None
 
-ALL_KINDS = ["op", "rho", "ham", "dmom", "sup", "lindop", "lindten", "dme"]
+ALL_KINDS = ["op", "rho", "ham", "dmom", "sup", "lindop", "lindten", "dme"] + list(SUP_T)
 
 
 def sections(tier):
